@@ -45,7 +45,10 @@ MANIFEST = {
             'discrete Fourier transform over any commutative ring with roots of unity and a conjugation the shift theorem is proved '
             '(dft_shift_theorem, dft_pipe_ok), the roots exist in the algebraic complex numbers for every mesh size (algC_roots), and '
             'complex_dft_symmetries states the three symmetries for the complex-DFT pipeline with any translation-invariant deposit '
-            'kernel (what C06.cell_shift_rolls proves of TSC/CIC) and any binning.  Floating-point rounding and reduction order, '
+            'kernel (what C06.cell_shift_rolls proves of TSC/CIC) and any binning.  Hermitian.v ties the stored half mesh to the full '
+            'DFT: for a real mesh conj(F f k) = F f (-k) (dft_hermitian), the raw power is even (power_even), and for every even '
+            'quantity the sum over all n1 n2 n3 modes equals the sum over the stored half k3 <= N3/2 with multiplicity 1 on the planes '
+            'k3 = 0, 2 k3 = N3 and 2 elsewhere (halfmesh_sum, real_mesh_power_halfmesh) - the multiplicities of C08.  Floating-point rounding and reduction order, '
             'hence the thread-count clause, are NOT modelled.  The tie to the code is a correspondence run only: the hypotheses are '
             'sampled on tsc_parallel / cic_serial / scipy.fft.rfftn and the real calc_power is run on metamorphic pairs '
             '(permutation, whole-cell translations, pos2=pos, 1..16 threads, other particle sets) with N_mode exact and floats '
@@ -199,7 +202,8 @@ def impl_hyps(payload):
     from scipy.fft import rfftn
     from abacusnbody.analysis.tsc import tsc_parallel
     from abacusnbody.analysis.cic import cic_serial
-    out = {'paint_roll': [], 'fft_shift': []}
+    out = {'paint_roll': [], 'fft_shift': [], 'hermitian': []}
+    from scipy.fft import fftn
     for c in payload['cases']:
         n, L = c['nmesh'], float(c['nmesh'])
         rs = np.random.RandomState(c['seed'])
@@ -230,6 +234,21 @@ def impl_hyps(payload):
         phi = np.exp(-2j * np.pi * (kx * a[0] + ky * a[1] + kz * a[2]) / n)
         err = float(np.abs(G2 - phi * G).max() / max(np.abs(G).max(), 1e-30))
         out['fft_shift'].append({'case': c, 'rel_err': err, 'unimodular_err': float(np.abs(np.abs(phi) - 1).max())})
+        # Hermitian.v: rfftn is the full DFT restricted to k3 <= n // 2; the full DFT of a real mesh at -k is the conjugate;
+        # full-mesh power = half-mesh power with multiplicity 1 on the planes k3 = 0, 2 k3 = n and 2 elsewhere
+        Gf = fftn(g.astype(np.float64))
+        G64 = rfftn(g.astype(np.float64))
+        scale = max(np.abs(Gf).max(), 1e-30)
+        idx = (-np.arange(n)) % n
+        neg = Gf[idx][:, idx][:, :, idx]
+        kz1 = np.arange(n // 2 + 1)
+        mult = np.where((kz1 == 0) | (2 * kz1 == n), 1.0, 2.0)[None, None, :]
+        full_p = float((np.abs(Gf) ** 2).sum())
+        half_p = float((mult * np.abs(G64) ** 2).sum())
+        out['hermitian'].append({'case': c,
+                                 'restrict_err': float(np.abs(Gf[:, :, :n // 2 + 1] - G64).max() / scale),
+                                 'conj_err': float(np.abs(neg - np.conj(Gf)).max() / scale),
+                                 'halfmesh_rel_err': abs(full_p - half_p) / max(full_p, 1e-30)})
     return out
 
 
@@ -356,6 +375,11 @@ def explore(ctx):
         evaluations += 1
         if r['rel_err'] > 1e-5 or r['unimodular_err'] > 1e-12:
             hyp_bad.append({'hypothesis': 'F_shift / phi_unit (rfftn shift theorem)', 'case': r})
+    for r in hyps.get('hermitian', []):
+        evaluations += 1
+        if r['restrict_err'] > 1e-10 or r['conj_err'] > 1e-10 or r['halfmesh_rel_err'] > 1e-10:
+            hyp_bad.append({'hypothesis': 'Hermitian (rfftn = half of the DFT of a real mesh; half mesh with multiplicities = full mesh)',
+                            'case': r})
     for hb in hyp_bad[:2]:
         k = 'hypothesis:' + hb['hypothesis'].split(' ')[0]
         counterexamples.setdefault(k, {
@@ -372,7 +396,7 @@ def explore(ctx):
                 'thread counts + pos2=pos + cross with a second set and its translation + another particle set; plus paint/roll and '
                 'rfftn shift-theorem samples; non-trivial = N >= 4 and some non-zero power, distinct by (mesh, config, binning, poles, N)',
         'samples': samples,
-        'traces_validated_against_impl': len(hyps['paint_roll']) + len(hyps['fft_shift']),
+        'traces_validated_against_impl': len(hyps['paint_roll']) + len(hyps['fft_shift']) + len(hyps.get('hermitian', [])),
         'exhaustive': False, 'input_distribution': dist, 'mismatches': [],
         'counterexamples': sorted(counterexamples.values(), key=lambda v: v['key']),
         'float_residual': {'rtol_of_column_max': RTOL, 'worst_observed': worst,
